@@ -95,12 +95,26 @@ class Program:
                 if (rel in known_files or any(r_.endswith('.cpp') and os.path.dirname(r_) == os.path.dirname(rel) for r_ in known_files)) and (rel, f.name) not in known_f \
                         and not rel.endswith('.hpp'):
                     new.append(f)
-        if not new:
+        # local closures that are handed a closure (a literal, or another local closure by name) are helpers of the same kind, written
+        # inside the function: expanded under the same policy even when no new function exists
+        def higher_order(f):
+            clos = {n['id'] for n in SX.walk(f.body) if n.get('k') == 'var' and SX.is_node(n.get('init')) and SX.strip(n['init']).get('k') == 'lambda'}
+            if not clos:
+                return False
+            for n in SX.walk(f.body):
+                if n.get('k') == 'opcall' and n.get('op') == '()' and n.get('args') and SX.is_node(SX.strip(n['args'][0])) and SX.strip(n['args'][0]).get('id') in clos:
+                    for a in n['args'][1:]:
+                        a = SX.strip(a)
+                        if SX.is_node(a) and (a.get('k') == 'lambda' or (a.get('k') == 'ref' and a.get('id') in clos)):
+                            return True
+            return False
+        ho = [f for f in self.functions if f.kind != 'lambda' and f.body and '/third_party/' not in f.file and f.file.startswith(self.repo) and higher_order(f)]
+        if not new and not ho:
             return
         from .knorm import normalise
         only = {f.key for f in new}
         self._new_keys = only
-        for f in list(self.functions):
+        for f in (list(self.functions) if new else ho):
             if f.kind == 'lambda' or not f.body or '/third_party/' in f.file:
                 continue
             f2 = normalise(self, f, depth=4, only=only)
